@@ -9,6 +9,7 @@ mod c03;
 mod c05;
 mod c08;
 mod c09;
+mod c11;
 mod c12;
 mod c17;
 mod c19;
@@ -76,6 +77,7 @@ fn main() {
             "C03" => c03::run(ctx, c03::Mode::C03),
             "C16" => c03::run(ctx, c03::Mode::C16),
             "C09" => c09::run(ctx),
+            "C11" => c11::run(ctx),
             "C12" => c12::run(ctx),
             "C17" => c17::run(ctx),
             "C19" => c19::run(ctx),
